@@ -50,7 +50,7 @@ pub fn spec() -> Spec<Case> {
     Spec {
         id: "C02",
         level: "exploration",
-        rule: "stateful histories (3-14 ops) over 1-3 small files and up to 4 branches: human/AI edits (R1: unique-token lines), commits, branch/switch (clean or carrying work), rebase {plain, --onto, -i reorder/squash/fixup/drop/edit+amend} with generated conflict resolutions (ours/theirs/both/hand-written/abort), cherry-pick (single, range, -n), amend, merge --squash, reset --soft/--mixed + recommit, stash/pop/apply, and must-not-change forms (abort, rebase refused on a dirty tree, commit --dry-run, read-only commands). Oracles: before/after blame relation per op (what was AI(S) and still exists is AI(S); what becomes AI must be right by the content-addressed model), the C01 commit oracle on every created commit, source-note carry-over for cherry-pick/squash, byte-identical notes list + pending-state digest across must-not-change ops. non-trivial = >=1 executed preserving op while AI attribution was pending or committed, in a history of >=3 commits; distinct by case hash".into(),
+        rule: "stateful histories (up to 30 ops, assembled from blocks: work, fork, diverge, stash round trip, and a 'rewrite scenario' = topic branch of 2-4 small commits + upstream of 1-2 commits + one rewriting op applied to exactly that shape) over 1-2 small files and up to 4 branches: human/AI edits (R1: unique-token lines), commits, branch/switch (clean or carrying work), rebase {plain, --onto, -i reorder/squash/fixup/drop/edit+amend} with generated conflict resolutions (ours/theirs/both/hand-written/abort/`--quit`/resolution recorded with a plain `git commit` before `--continue`), cherry-pick (single, range, -n), amend, merge --squash, reset --soft/--mixed + recommit, stash/pop/apply, and must-not-change forms (abort, rebase refused on a dirty tree, commit --dry-run, read-only commands). Oracles: before/after blame relation per op (what was AI(S) and still exists is AI(S); what becomes AI must be right by the content-addressed model), the C01 commit oracle on every created commit, source-note carry-over for cherry-pick/squash, byte-identical notes list + pending-state digest across must-not-change ops. non-trivial = >=1 executed preserving op while AI attribution was pending or committed, in a history of >=3 commits; distinct by case hash".into(),
         cases_quick: 224,
         cases_thorough: 4000,
         shrink_iters: 30,
